@@ -130,36 +130,34 @@ Check C07_rules9_lower : forall p, In p lowering_rules9 ->
   (forall b, continue_in_loops b = true -> feature (fst p) (snd p b) = 0) /\
   (forall j b, (j < 9)%nat -> feature j b = 0 -> feature j (snd p b) = 0).
 
-(** remove_continue at ANY position among the others (any order and multiplicity before and
-    after it, every construct covered): a Lua 5.1 tree, PROVIDED the tree that reaches
-    remove_continue is in its domain.  Partial: what is missing for the unconditional "any
-    order of the nine" is that the other eight rules preserve [continue_in_loops]. *)
-Theorem C07_all_lowered9_partial : forall rs1 rs2,
-  (forall p, In p rs1 -> In p lowering_rules) ->
-  (forall p, In p rs2 -> In p lowering_rules9) ->
-  (forall j, (j < 9)%nat -> j <> 1%nat -> In j (map fst (rs1 ++ rs2))) ->
-  forall b, continue_in_loops (apply_rules rs1 b) = true ->
-  lua51_tree (apply_rules (rs1 ++ rule_continue :: rs2) b) = true.
-Proof. exact all_lowered9_at. Qed.
-Print Assumptions C07_all_lowered9_partial.
-Check C07_all_lowered9_partial : forall rs1 rs2,
-  (forall p, In p rs1 -> In p lowering_rules) ->
-  (forall p, In p rs2 -> In p lowering_rules9) ->
-  (forall j, (j < 9)%nat -> j <> 1%nat -> In j (map fst (rs1 ++ rs2))) ->
-  forall b, continue_in_loops (apply_rules rs1 b) = true ->
-  lua51_tree (apply_rules (rs1 ++ rule_continue :: rs2) b) = true.
+(** each of the nine keeps a tree in the domain of remove_continue *)
+Theorem C07_rules9_keep_domain : forall p, In p lowering_rules9 ->
+  forall b, continue_in_loops b = true -> continue_in_loops (snd p b) = true.
+Proof. exact lowering_rules9_keep_domain. Qed.
+Print Assumptions C07_rules9_keep_domain.
+Check C07_rules9_keep_domain : forall p, In p lowering_rules9 ->
+  forall b, continue_in_loops b = true -> continue_in_loops (snd p b) = true.
 
-(** remove_continue first, then the others in any order: unconditional on valid programs *)
-Theorem C07_all_lowered9_continue_first : forall rs,
+(** ALL NINE RULES IN ANY ORDER and multiplicity: any list of rules among the nine that has a
+    rule for each of the nine constructs turns a tree whose [continue]s are all in loops into a
+    Lua 5.1 tree *)
+Theorem C07_all_lowered9 : forall rs,
   (forall p, In p rs -> In p lowering_rules9) ->
-  (forall j, (j < 9)%nat -> j <> 1%nat -> In j (map fst rs)) ->
-  forall b, continue_in_loops b = true -> lua51_tree (apply_rules (rule_continue :: rs) b) = true.
-Proof. exact all_lowered9_continue_first. Qed.
-Print Assumptions C07_all_lowered9_continue_first.
-Check C07_all_lowered9_continue_first : forall rs,
+  (forall j, (j < 9)%nat -> In j (map fst rs)) ->
+  forall b, continue_in_loops b = true -> lua51_tree (apply_rules rs b) = true.
+Proof. exact all_lowered9. Qed.
+Print Assumptions C07_all_lowered9.
+Check C07_all_lowered9 : forall rs,
   (forall p, In p rs -> In p lowering_rules9) ->
-  (forall j, (j < 9)%nat -> j <> 1%nat -> In j (map fst rs)) ->
-  forall b, continue_in_loops b = true -> lua51_tree (apply_rules (rule_continue :: rs) b) = true.
+  (forall j, (j < 9)%nat -> In j (map fst rs)) ->
+  forall b, continue_in_loops b = true -> lua51_tree (apply_rules rs b) = true.
+
+Theorem C07_all_lowered9_permutation : forall rs, Permutation.Permutation rs lowering_rules9 ->
+  forall b, continue_in_loops b = true -> lua51_tree (apply_rules rs b) = true.
+Proof. exact all_lowered9_permutation. Qed.
+Print Assumptions C07_all_lowered9_permutation.
+Check C07_all_lowered9_permutation : forall rs, Permutation.Permutation rs lowering_rules9 ->
+  forall b, continue_in_loops b = true -> lua51_tree (apply_rules rs b) = true.
 
 (** the fuel the rules are run with is sufficient: any larger fuel gives the same tree *)
 Theorem C07_fuel_sufficient : forall H, In H lowering_hooks ->
